@@ -10,6 +10,7 @@ import (
 	"time"
 
 	"github.com/akrennmair/updog/zzverif/vsched"
+	"github.com/akrennmair/updog/zzverif/vsync"
 	"go.etcd.io/bbolt"
 )
 
@@ -27,6 +28,16 @@ var (
 	// PanicOnWait: in sequential harnesses a lock wait is a definite hang; raise WouldBlock instead of sleeping.
 	PanicOnWait bool
 )
+
+// Sequential switches every "would block forever" detector on or off: the file lock (PanicOnWait), updog's own
+// mutexes (vsync.Sequential) and bbolt's internal locks.
+func Sequential(on bool) {
+	PanicOnWait = on
+	vsync.Sequential = on
+	seq = on
+}
+
+var seq bool
 
 func init() {
 	bbolt.VerifFlocked = func(path string) { mu.Lock(); held[path]++; mu.Unlock() }
@@ -46,6 +57,7 @@ func init() {
 		}
 		time.Sleep(50 * time.Millisecond)
 	}
+	bbolt.VerifSequential = func() bool { return seq }
 	bbolt.VerifPoint = func(kind uint8, obj uintptr, arg int) bool { return vsched.Point(vsched.Kind(kind), obj, arg) }
 	vsched.FlockHeld = func(path string) bool {
 		mu.Lock()
